@@ -49,6 +49,10 @@ pub fn variants(r: &mut Rng, f: &Option<String>) -> Vec<Option<String>> {
         }
         v.push(Some(format!("{}x", s)));
         v.push(Some(format!("{}\0", s)));
+        // other spellings of the same number / identifier
+        v.push(Some(format!("0{}", s)));
+        v.push(Some(format!("+{}", s)));
+        v.push(Some(format!("{}.0", s)));
         v.push(Some(format!(" {}", s)));
         // canonically equivalent Unicode in another normalisation form is a different byte string
         if s.contains('é') {
@@ -101,6 +105,15 @@ fn gen_c05(ctx: &GenCtx, i: u64) -> Option<Run> {
     let raw = layer == Layer::Core && r.chance(1, 3);
     let big = !matches!(proto, Proto::V3P | Proto::V1P) && r.chance(1, 10);
     let msg = if raw { ascii!(r, *r.pick(&[0usize, 0, 1, 2, 16])) } else if big { ascii!(r, *r.pick(&[4000usize, 4096, 5000, 8192, 9000, 70_000])) } else { ascii!(r, r.usize(40)) };
+    // one run in eight (raw core message): the footer is the beginning of the message itself, cut at a
+    // base64 quantum - so the footer's encoding also occurs inside the token body
+    let (footer, msg) = if raw && r.chance(1, 2) {
+        let m = ascii!(r, 12 + r.usize(30));
+        let k = 3 * (1 + r.usize(3));
+        (Some(m[..k].to_string()), m)
+    } else {
+        (footer, msg)
+    };
     let opts = IssueOpts { proto, layer, key, footer: footer.clone(), assertion, now, message: msg.clone(), json_payload: if raw { None } else { Some(json!({"data": msg})) }, extra_claims: vec![] };
     let mut t = issue(&mut rb, &mut r, opts);
     // builder layers: sometimes it is the 2nd or 3rd token of the same builder that travels
@@ -123,6 +136,8 @@ fn gen_c05(ctx: &GenCtx, i: u64) -> Option<Run> {
         let mut spec = plain_spec(&t, vlayer);
         spec.default_validators = vlayer == Layer::Batteries;
         let v = rb.verifier(spec);
+        rb.deliver(t.msg, v, at);
+        // (and once more: what a parser has seen must not change what it expects)
         rb.deliver(t.msg, v, at);
         // "" directly after the matching footer, after another one, and back again
         let fm = footer.clone().unwrap_or_default();
@@ -227,6 +242,7 @@ fn gen_c06(ctx: &GenCtx, i: u64) -> Option<Run> {
             let assertion = match (i / 3) % 4 {
                 0 => None,
                 1 => Some(String::new()),
+                2 if r.chance(1, 3) => Some((*r.pick(&["7", "42", "1000", "0", "18446744073709551615", "007", "1e3", "-1"])).to_string()),
                 _ => Some(if r.chance(1, 2) { ascii!(r, 1 + r.usize(24)) } else { nonempty_text!(r, 24) }),
             };
             let mut footer = gen_opt_text(&mut r).map(|f| f.chars().take(10).collect::<String>());
